@@ -106,6 +106,112 @@ def cli_json(workdir, dsl, year):
     cmd = [build.CLI, "report", "in.cgt", "--format", "json"] + (["--year", str(year)] if year is not None else [])
     return subprocess.run(cmd, cwd=workdir, stdout=subprocess.PIPE, stderr=subprocess.PIPE, text=True, env=env, timeout=120)
 
+# ---------------- the tool layer against Model/McpTools.v (K.C20.tools) ----------------
+RUST_ASCII_SPACE = " \t\n\x0b\x0c\r"
+def tool_layer(ctx, root, ledgers):
+    """What each tool does around the computations: trimming, JSON sniffing by a leading '[', the empty-list refusal, explain_matching's date
+    reading, derived tax year and look-up.  The readers' and the calculator's outcomes come from the library (harness); the model
+    (extracted McpTools) predicts answer / error; the built server is asked the same."""
+    import binascii
+    from . import run
+    rng = ctx.rng
+    hx = lambda t: "x" + binascii.hexlify(t.encode("utf-8")).decode()
+    def pad(): return "".join(rng.choice(RUST_ASCII_SPACE) for _ in range(rng.choice([0, 0, 1, 2, 4])))
+    cases = []
+    for i in range(ctx.n(60, 1500)):
+        ls, dsl = rng.choice(ledgers)
+        form = rng.choice(["dsl", "dsl", "json", "special"])
+        if form == "dsl": body = dsl
+        elif form == "json": body = to_json_txns(ls)
+        else: body = rng.choice(["", "[", "[]", "[ ]", "garbage", "[garbage", "# only a comment", "[]x", " " + dsl, dsl + " ", "\u00a0" + dsl, dsl + "\u2003", "[{\"date\":\"2024-01-01\"}]"])
+        text = pad() + body + pad()
+        tool = rng.choice(["parse", "parse", "calc", "calc", "explain", "explain", "todsl"])
+        c = {"id": "tl%d" % i, "tool": tool, "text": text, "form": form}
+        years = sorted({K.tax_year(l.date) for l in ls})
+        if tool == "calc": c["year"] = rng.choice([None, None] + years + [1980])
+        if tool == "explain":
+            sells = [l for l in ls if l.kind == "SELL"]
+            if sells and rng.random() < 0.8:
+                sl = rng.choice(sells); d = sl.date
+                c["date"] = rng.choice([d.isoformat()] * 4 + ["%d-%d-%d" % (d.year, d.month, d.day), d.strftime("%d/%m/%Y"), d.isoformat() + " ", "%04d-%02d-31" % (d.year, 2)])
+                c["tick"] = rng.choice([sl.tick, sl.tick.lower(), sl.tick.upper(), sl.tick + "X"])
+            else:
+                c["date"] = rng.choice(["2024-06-01", "2024-13-01", "", "2023-02-29"]); c["tick"] = "NOPE"
+        cases.append(c)
+    # oracles
+    hc = []; seen = set()
+    def want(kind, t, year=None):
+        key = (kind, t, year)
+        if key in seen: return
+        seen.add(key)
+        if kind == "dsl": hc.append({"id": "pd:" + hx(t), "op": "parse", "text_hex": hx(t)[1:]})
+        elif kind == "json": hc.append({"id": "pj:" + hx(t), "op": "json_read", "json_text": t})
+        else: hc.append({"id": "rp:%s:%s" % (hx(t), year), "op": "report", **({"json": t} if t.startswith("[") else {"dsl": t}), **({"year": year} if year is not None else {})})
+    def iso_year(dstr):
+        m = re.fullmatch(r"(\d{4})-(\d\d)-(\d\d)", dstr)
+        if not m: return None
+        try: return K.tax_year(datetime.date(int(m.group(1)), int(m.group(2)), int(m.group(3))))
+        except ValueError: return None
+    for c in cases:
+        t = c["text"].strip(RUST_ASCII_SPACE); c["trimmed"] = t
+        want("dsl", t); want("json", t)
+        ys = [c.get("year")] if c["tool"] == "calc" else ([iso_year(c["date"])] if c["tool"] == "explain" and iso_year(c["date"]) is not None else [])
+        c["years"] = ys
+        for y in ys: want("report", t, y)
+    hr = run.run_harness(hc)
+    mc = []
+    for c in cases:
+        t = c["trimmed"]; lines = []
+        pdr = hr.get("pd:" + hx(t), {}); pjr = hr.get("pj:" + hx(t), {})
+        lines.append("MD %s %d" % (hx(t), len(pdr.get("txns", [])) if pdr.get("ok") else -1))
+        lines.append("MJ %s %d" % (hx(t), len(pjr.get("txns", [])) if pjr.get("ok") else -1))
+        for y in c["years"]:
+            rp = hr.get("rp:%s:%s" % (hx(t), y), {}); ya = "-" if y is None else str(y)
+            lines.append("MC %s %d" % (ya, 1 if rp.get("ok") else 0))
+            if rp.get("ok"):
+                for yy in rp["report"]["years"]:
+                    for d in yy["disposals"]:
+                        dd = datetime.date.fromordinal(d["date"]) if isinstance(d["date"], int) else datetime.date.fromisoformat(d["date"]); lines.append("MDS %s %d %d %d %s" % (ya, dd.year, dd.month, dd.day, hx(d["tick"])))
+        if c["tool"] in ("parse", "todsl"): lines.append("RUN mcp_tool parse %s" % hx(c["text"]))
+        elif c["tool"] == "calc": lines.append("RUN mcp_tool calc %s %s" % (hx(c["text"]), "-" if c["year"] is None else c["year"]))
+        else: lines.append("RUN mcp_tool explain %s %s %s" % (hx(c["text"]), hx(c["date"]), hx(c["tick"])))
+        mc.append((c["id"], lines))
+    mr = run.run_model(mc)
+    reqs = []
+    for c in cases:
+        if c["tool"] == "parse": a = ("parse_transactions", {"transactions": c["text"]})
+        elif c["tool"] == "todsl": a = ("convert_to_dsl", {"transactions": c["text"]})
+        elif c["tool"] == "calc": a = ("calculate_report", dict({"transactions": c["text"]}, **({"year": c["year"]} if c["year"] is not None else {})))
+        else: a = ("explain_matching", {"transactions": c["text"], "disposal_date": c["date"], "ticker": c["tick"]})
+        reqs.append((c["id"], ("tools/call", {"name": a[0], "arguments": a[1]})))
+    res = run_session(os.path.join(root, "tools"), reqs, False, "int")
+    for k, c in enumerate(cases):
+        mm = mr[c["id"]]; ctx.evaluations += 1
+        ctx.count("tool_layer_" + c["tool"], mm["res"]); ctx.count("tool_layer_input", c["form"])
+        if mm["res"] == "unmodelled": continue
+        rr = res["got"].get(json.dumps(res["ids"][k]), [None])[0] if k < len(res["ids"]) else None
+        txt, iserr = mcp.tool_text(rr) if rr else (None, True)
+        failed = rr is None or "error" in rr or iserr
+        what = None
+        if mm["unknown"]: what = "the model trimmed the argument differently from the check's oracle: %s" % mm["unknown"][:2]
+        elif rr is None: what = "no answer"
+        elif (mm["res"] == "ok") == failed: what = "model says %s, the server %s: %s" % (mm["res"], "refuses" if failed else "answers", str((rr.get("error") or {}).get("message") or txt)[:160])
+        elif mm["res"] == "ok":
+            try:
+                if c["tool"] == "parse":
+                    n = len(json.loads(txt))
+                    if n != mm["count"]: what = "parse_transactions returns %d transactions, the %s reader finds %d" % (n, mm["reader"], mm["count"])
+                elif c["tool"] == "todsl":
+                    n = len([l for l in txt.split("\n") if l.strip() and not l.lstrip().startswith("#")])
+                    if n != mm["count"]: what = "convert_to_dsl writes %d lines for %d transactions" % (n, mm["count"])
+                elif c["tool"] == "explain":
+                    j = json.loads(txt); y, mth, d = (int(x) for x in mm["date"].split("-"))
+                    if j["disposal_date"] != "%04d-%02d-%02d" % (y, mth, d) or j["ticker"] != binascii.unhexlify(mm["tick"]).decode(): what = "explain_matching explains %s %s, the model finds %s %s" % (j["disposal_date"], j["ticker"], mm["date"], binascii.unhexlify(mm["tick"]).decode())
+            except Exception as e: what = "unreadable answer (%s): %s" % (e, str(txt)[:120])
+        if what:
+            ctx.disagreements_checked += 1
+            ctx.violation("correspondence K.C20.tools broken (%s on a %s input): %s" % (c["tool"], c["form"], what), {"case": c, "model": mm, "answer": rr, "correspondence": "K.C20.tools"}, found_input=False)
+
 def k_c20(ctx):
     rng = ctx.rng
     root = os.path.join(build.CACHE, "run", "c20-%d" % os.getpid()); shutil.rmtree(root, ignore_errors=True); os.makedirs(root)
@@ -236,6 +342,7 @@ def k_c20(ctx):
                 if p.returncode == 0 and params["arguments"]["transactions"].strip():
                     ctx.violation("calculate_report answers with an error where the CLI produces a report: %s" % str(a[2])[:200], {"request": params, "cli_stdout": p.stdout[:300]}, found_input=True)
         ctx.count("compared_with_cli", ncli)
+        tool_layer(ctx, root, ledgers)
         # ---- known findings of the transport (rmcp): reproduced on every run while they persist
         hostile(ctx, root)
     finally:
